@@ -588,7 +588,7 @@ class NumpyModel:
             if it.ty in ('ndarray', 'list') or it.dtype == 'bool':
                 fancy = True
         out = base.only('ty', 'geo', 'idx', 'mono', 'prov', 'store', 'cols', 'colvals', 'taint', 'dtype', 'enc', 'origin')
-        out = out.w(axes=new_axes, axis=axis_tag, at=None)
+        out = out.w(axes=new_axes, axis=axis_tag, at=base.at if (base.idx is not None and base.idx[0] == 'FRAME') else None)
         if fancy:
             out = out.w(store='fresh', fresh=True)
         else:
